@@ -91,6 +91,10 @@ type Op struct {
 	RetVal string `json:"retval,omitempty"`
 	// Expected: the legacy "Expected" parameter of a write in its short form (attribute = value)
 	Expected val.Item `json:"expected,omitempty"`
+	// Paginate: walk the whole result with the SDK's own paginator (SDK v2: NewQueryPaginator / NewScanPaginator;
+	// SDK v1 has none the fake implements): Items holds all pages, Count the number of pages, at most MaxPages
+	Paginate bool `json:"paginate,omitempty"`
+	MaxPages int  `json:"maxpages,omitempty"`
 	// CondSet: send ConditionExpression even when Cond is empty or blank (a pointer to that text, not nil)
 	CondSet bool `json:"condset,omitempty"`
 	// DoneCtx: make the call with a context that is already done ("cancelled", "expired")
